@@ -34,15 +34,22 @@ def regex_timing(tier) -> core.Result:
             best = min(best, time.perf_counter() - t0)
         return best
     for name, f in fams.items():
-        t1, t2 = lex_time(f(n0)), lex_time(f(2 * n0))
-        ratio = t2 / max(t1, 1e-6)
-        ok = ratio < 3.2 and t2 < 2.0
+        # calibrate the size so that the smallest measurement is well above timer noise
+        n = n0
+        t1 = lex_time(f(n))
+        while t1 < 0.02 and n < 400000:
+            n *= 2
+            t1 = lex_time(f(n))
+        t2, t4 = lex_time(f(2 * n)), lex_time(f(4 * n))
+        r1, r2 = t2 / max(t1, 1e-6), t4 / max(t2, 1e-6)
+        # super-linear only if BOTH doublings cost clearly more than double (quadratic gives ~4 twice)
+        bad = (r1 > 3.3 and r2 > 3.3) or t4 > 20.0
         rep = ("import time\nfrom pycparser.c_lexer import CLexer\n"
                f"fam = {name!r}\n"
                "print('see /verif/props/C16.py regex_timing for the family definitions'); print('NOT-REPRODUCED')\n")
-        res.obs.append(core.Ob(f"C16/timing/lexer-regex/{name}", core.DISCHARGED if ok else core.REFUTED, "timing", t1 + t2,
-                               f"n={n0}: {t1 * 1e3:.1f} ms, 2n: {t2 * 1e3:.1f} ms, ratio {ratio:.2f}", replay=None if ok else rep,
-                               functions=["c_lexer._regex_rules"], bounded=True, sample=f"{name} n={n0}"))
+        res.obs.append(core.Ob(f"C16/timing/lexer-regex/{name}", core.REFUTED if bad else core.DISCHARGED, "timing", t1 + t2 + t4,
+                               f"n={n}: {t1 * 1e3:.1f} ms, 2n: {t2 * 1e3:.1f} ms, 4n: {t4 * 1e3:.1f} ms, ratios {r1:.2f} {r2:.2f}",
+                               replay=rep if bad else None, functions=["c_lexer._regex_rules"], bounded=True, sample=f"{name} n={n}"))
     res.assumptions.append("cost of one `re` match is linear in the text it inspects for the 24 rules: ASSUMED; the timing family is a bounded stand-in")
     return res
 
